@@ -54,7 +54,8 @@ EvalSingle == /\ Mode = "single" /\ phase = "new" /\ phase' = "done"
 
 (* batch: one Append per entry response of length l; relative choices probe the boundary at every position *)
 Room == c.m - len - 1
-LenChoices == IF Mode # "batch" THEN {} ELSE {l \in {MinEntry, MinEntry + 7, Room - 1, Room, Room + 1, Room + 2} : l >= MinEntry /\ l <= c.m}
+(* (c.m - 2: the largest entry that fits alone - wherever it comes later it exceeds what is left by far, not just by a byte or two) *)
+LenChoices == IF Mode # "batch" THEN {} ELSE {l \in {MinEntry, MinEntry + 7, Room - 1, Room, Room + 1, Room + 2, c.m - 2} : l >= MinEntry /\ l <= c.m}
 AppendEntry(l) ==
              /\ Mode = "batch" /\ phase \in {"new", "appending"} /\ ~aborted /\ Len(lens) < MaxEntries
              /\ lens' = Append(lens, l)
